@@ -38,7 +38,7 @@ def is_2_part(instance):
     part_res = is_part(instance)
     if part_res[0]:
         parts = part_res[1]
-        if len(parts) == 1:
+        if len(parts) <= 1:
             return part_res
         if len(parts) == 2 and set().union(*parts) == set(instance.alternatives_name):
             return part_res
